@@ -50,6 +50,14 @@ func (eng *Engine) verifyFunction(fn *ssa.Function, con *Contract, pkg *PkgInfo)
 		if con != nil && i < len(con.Params) && con.Params[i] != "" && con.Params[i] != "_" {
 			fc.params[con.Params[i]] = v
 		}
+		if con != nil {
+			// a renamed parameter keeps the name the contract knows it by (rebind.go)
+			if old := fc.recordedParam(i, p.Name()); old != "" {
+				if _, clash := fc.params[old]; !clash {
+					fc.params[old] = v
+				}
+			}
+		}
 		if i == 0 && fn.Signature.Recv() != nil {
 			fc.params["this"] = v
 			if v.K == KPtr && v.S != "" && (con == nil || !con.NilRecv) {
